@@ -22,6 +22,7 @@ Stmt     = ["yield", Struct] | ["yield", Struct, "twice"|"dup"]   same object yi
          | ["syncshared", sid]               shared_task.value(): synchronous wait on a task created elsewhere
          | ["cancelbatch", kind]             cancel the kind's currently collecting batch (user-level cancel())
          | ["syncitem", site, kind, key]     item = request(); item.value()  (flushes its batch directly)
+         | ["ctxopen", Ctx, tag] | ["ctxclose", tag]   a logging context with a non-lexical lifetime
          | ["probe", what]
 Struct   = ["leaf", Leaf] | ["tuple", [Struct]] | ["list", [Struct]]
          | ["dict", [[key, Struct]...]]
@@ -206,6 +207,7 @@ class Frame(object):
         "steps",
         "rtdata",
         "done",
+        "open_ctxs",
     )
 
     def __init__(self, nid, path, parent=None):
@@ -220,6 +222,7 @@ class Frame(object):
         self.steps = 0
         self.rtdata = None
         self.done = False
+        self.open_ctxs = []  # contexts entered with "ctxopen" and not yet closed
 
     def value(self):
         return ("n", self.nid, self.path, tuple(self.received))
@@ -238,6 +241,10 @@ def exec_node(rt, fr):
             return rt.future_result(fr, fr.value())
         return fr.value()
     finally:
+        # contexts opened by hand and still open are closed on the way out (like an ExitStack)
+        while fr.open_ctxs:
+            _tag, cm = fr.open_ctxs.pop()
+            cm.__exit__(None, None, None)
         fr.done = True
         rt.ev_end(fr)
 
@@ -350,6 +357,18 @@ def exec_block(rt, fr, block):
             with cm:
                 if (yield from exec_block(rt, fr, st[2])):
                     return RET
+        elif op == "ctxopen":
+            # a context whose lifetime is not a lexical block (entered here, left by a later "ctxclose"):
+            # contexts may then be left in another order than they were entered
+            cm = rt.ctx(fr, st[1])
+            cm.__enter__()
+            fr.open_ctxs.append((st[2], cm))
+        elif op == "ctxclose":
+            for j, (tag, cm) in enumerate(fr.open_ctxs):
+                if tag == st[1]:
+                    del fr.open_ctxs[j]
+                    cm.__exit__(None, None, None)
+                    break
         elif op == "read":
             v = rt.read(fr, st[1])
             # type-sensitive: 1, True and 1.0 are different values to a program
